@@ -21,6 +21,7 @@ structure Obj where
   leaf : Nat
   content : Bytes
   key : Bytes
+  keys : List Bytes := []   -- the leaf keys `put` reported
 
 structure St where
   leaf : Nat := 64
@@ -78,7 +79,7 @@ def applyFault (st : St) (kv : List (String × String)) : St :=
   | some o =>
     let keys := match objectKeys H o.leaf st.store o.key with
       | .ok ks => ks
-      | .error _ => []
+      | .error _ => o.keys
     let target := (kvGet kv "blob").getD "root"
     let k : Bytes := if target == "root" then o.key else (keys[target.toNat?.getD 0]?).getD []
     let cur := (st.store.get k).getD []
@@ -162,13 +163,29 @@ def step (st : St) (op : String) : St × Option String :=
     let sizes := natList ((kvGet kv "chunks").getD "")
     let writes := (splitBy sizes content).filter (· ≠ [])
     let (s', r) := put H st.crc st.leaf st.store writes
-    ({ st with store := s', objs := (i, { leaf := st.leaf, content := content, key := r.key }) :: st.objs },
+    ({ st with store := s', objs := (i, { leaf := st.leaf, content := content, key := r.key, keys := r.keys }) :: st.objs },
      some ("ok key=" ++ hexOfBytes r.key ++ " written=" ++ toString r.written ++ " found=" ++ (if r.found then "1" else "0")))
   | "snapshot" :: _ => (st, some (showSnap st.store))
   | "fault" :: rest =>
     let base := st.saved.getD st.store
     (applyFault { st with store := base, saved := some base } (kvs rest), none)
   | "restore" :: _ => ({ st with store := st.saved.getD st.store }, none)
+  | "damage" :: rest =>
+    -- lasting damage (a crash remnant): applied to the current store, later operations see it
+    ({ applyFault { st with saved := none } (kvs rest) with saved := none }, none)
+  | "delete" :: rest =>
+    -- `Fs.Delete`: the leaf blobs in key order, then the root blob; the first failing store delete ends it
+    let kv := kvs rest
+    match getObj st ((kvNat kv "obj").getD 0) with
+    | none => (st, some "noobj")
+    | some o =>
+      match objectKeys H o.leaf st.store o.key with
+      | .error _ => (st, some "err")
+      | .ok keys =>
+        let (s', ok) := (keys ++ [o.key]).foldl (fun (acc : Store × Bool) k =>
+          if !acc.2 then acc
+          else if (acc.1.get k).isSome then (acc.1.filter (·.1 != k), true) else (acc.1, false)) (st.store, true)
+        ({ st with store := s' }, some (if ok then "ok" else "err"))
   | "read" :: rest =>
     -- fault-free reads (C01): exact result
     let kv := kvs rest
